@@ -1,5 +1,8 @@
 """C08 - Degrees and connected components equal their combinatorial definitions."""
 import itertools
+import random
+import sys
+import time
 
 from checks.containers import run_container, explore, CC_CLAUSES
 from harness.verdict import Result
@@ -67,12 +70,377 @@ def _extra(kind, weighted, tier, seed):
     return all_hypergraphs(kind, weighted, tier, seed) + split_hypergraphs(kind, weighted, tier, seed)
 
 
+# ---------------------------------------------------------------------------------------------------
+# Large structured inputs (20-400 nodes): the hypergraph is a disjoint union of connected blocks given by
+# construction parameters (spec/ext/Blocks.tla); the answers of the real code are decided by TLC against the
+# block formulas (spec/trace/Trace_C08B.tla), which spec/mc/MC_Blocks.tla shows to agree with the general
+# definitions of Derive.tla on every small parameter sequence.
+
+BLOCK_INV = ["ExpansionWellFormed", "PartsAreComponents", "ClosedForms", "Headline", "DegreesByShape", "SizesByShape"]
+BLOCK_PROBES = ["ProbeNeverDust", "ProbeNoPendants"]          # TLC must refute these (non-vacuity)
+LARGE_FAMS = ("ident", "zero", "sparse", "str", "neg")
+LARGE_OWN = CC_CLAUSES | {"visits_bfs", "visits_dfs", "degree", "degree_sequence", "degree_distribution", "get_sizes",
+                          "no_exception"}
+
+
+def explore_blocks(tier):
+    """exhaustive TLC runs of MC_Blocks; returns the list of run records"""
+    import concurrent.futures as cf
+    from harness import tlc
+    if tier == "quick":
+        cfgs = [(4, 3, {"eq"}), (8, 1, {"eq", "upto"})]
+    else:
+        cfgs = [(5, 3, {"eq", "upto"}), (6, 2, {"eq", "upto"}), (11, 1, {"eq", "upto"})]
+
+    def consts(c):
+        return {"Kind": "hg", "MaxN": c[0], "MaxBlocks": c[1], "FKinds": c[2]}
+
+    def one(c):
+        r = tlc.run("MC_Blocks", tlc.cfg_text(consts(c), invariants=BLOCK_INV), workers=8 if tier == "quick" else 16,
+                    timeout=2400, heap="4g")
+        if not tlc.ok_exploration(r):
+            raise tlc.TLCError("MC_Blocks %s: a block formula disagrees with Derive.tla:\n%s" % (c, tlc.error_excerpt(r["out"])))
+        st = tlc.stats(r["out"])
+        return {"module": "MC_Blocks", "max_block_nodes": c[0], "max_blocks": c[1], "filters": sorted(c[2]),
+                "states": st["distinct"], "transitions": st["generated"], "wall_s": round(r["wall"], 1)}
+
+    def probe(inv):
+        r = tlc.run("MC_Blocks", tlc.cfg_text(consts((4, 2, {"eq"})), invariants=[inv]), workers=2, timeout=600)
+        if "Invariant %s is violated" % inv not in r["out"]:
+            raise tlc.TLCError("MC_Blocks: the probe %s was expected to be violated\n%s" % (inv, tlc.error_excerpt(r["out"])))
+        return inv
+
+    with cf.ThreadPoolExecutor(max_workers=4) as ex:
+        pr = [ex.submit(probe, i) for i in BLOCK_PROBES]
+        runs = list(ex.map(one, cfgs))
+        probes = [p.result() for p in pr]
+    return runs, probes
+
+
+def _blk(shape, n, p=0):
+    return {"shape": shape, "n": n, "p": p}
+
+
+def block_edges(b):
+    """hyperedges of a block over its local nodes 1..n: the transcription of Blocks!LEdges (TLC confirms the built
+    object against Blocks!ExpandEdges, clause `construction`)"""
+    sh, n, p = b["shape"], b["n"], b["p"]
+    if sh == "single":
+        return [(1,)] if p == 1 else []
+    if sh == "path":
+        return [(i, i + 1) for i in range(1, n)]
+    if sh == "star":
+        return [(1, i) for i in range(2, n + 1)]
+    if sh == "bigedge":
+        return [tuple(range(1, n + 1))]
+    if sh == "bigpend":
+        m = n - p
+        return [tuple(range(1, m + 1))] + [(((j - 1) % m) + 1, m + j) for j in range(1, p + 1)]
+    if sh == "triples":
+        return [(2 * i - 1, 2 * i, 2 * i + 1) for i in range(1, (n - 1) // 2 + 1)]
+    raise ValueError(sh)
+
+
+def large_plans(tier, seed):
+    """parameter sequences: a fixed core (the shapes and sizes named in DESIGN.md C08) + random unions"""
+    rng = random.Random(seed * 977 + 5)
+    odd = lambda x: x if x % 2 else x + 1
+    core = [
+        [_blk("path", rng.randint(257, 400))],                                  # connected, more than 256 nodes
+        [_blk("triples", odd(rng.randint(257, 398)))],
+        [_blk("star", rng.randint(258, 400))],                                   # more than 256 leaves
+        [_blk("bigedge", rng.randint(257, 330))],
+        [_blk("bigpend", 12 + 8, 8)],                                           # one hyperedge of 8-40 nodes, pendant pairs
+        [_blk("bigpend", 8 + 3, 3), _blk("single", 1), _blk("bigpend", 9 + 9, 9)],
+        [_blk("bigpend", 40 + 25, 25)],
+        [_blk("bigpend", 24 + 60, 60), _blk("single", 1, 1)],                     # several pendants per member
+        [_blk("path", 130), _blk("path", 131)],                                  # near-tie of sizes
+        [_blk("star", 260), _blk("path", 100), _blk("single", 1), _blk("single", 1, 1)],
+        [_blk("triples", 151), _blk("bigpend", 30 + 12, 12), _blk("bigedge", 40), _blk("single", 1), _blk("star", 90)],
+        [_blk("single", 1, i % 2) for i in range(20)],                            # only isolated nodes
+    ]
+    out = [(ps, "core") for ps in core]
+    total = (36 if tier == "quick" else 420)
+    while len(out) < total:
+        nb = rng.choice([1, 2, 2, 3, 3, 4, 5])
+        cap = rng.choice([60, 150, 400])
+        ps, left = [], cap
+        for _ in range(nb):
+            sh = rng.choice(["path", "star", "bigedge", "bigpend", "bigpend", "triples"])
+            hi = max(4, min(left - (nb - len(ps)), 400))
+            if hi < 4:
+                break
+            if sh == "bigpend":
+                m = rng.randint(2, min(40, hi - 1)) if rng.random() < 0.25 else rng.randint(min(8, hi - 1), min(40, hi - 1))
+                p = rng.randint(1, max(1, min(hi - m, 2 * m + 3)))
+                b = _blk(sh, m + p, p)
+            elif sh == "bigedge":
+                b = _blk(sh, rng.randint(2, min(hi, 120)))
+            elif sh == "triples":
+                b = _blk(sh, odd(rng.randint(3, hi - 1)))
+            else:
+                b = _blk(sh, rng.randint(2, hi))
+            ps.append(b)
+            left -= b["n"]
+        for _ in range(rng.choice([0, 0, 1, 2, 3, 7])):
+            ps.insert(rng.randint(0, len(ps)), _blk("single", 1, rng.choice([0, 0, 1])))
+        if ps and 20 <= sum(b["n"] for b in ps) <= 400:
+            out.append((ps, "random-union"))
+    return out
+
+
+def _large_label(fam, i):
+    return {"ident": i, "zero": i - 1, "sparse": 3 * i + 7, "str": "n%03d" % i, "neg": -i}[fam]
+
+
+def build_large(ps, fam, mode, bseed):
+    """a real Hypergraph that is Blocks!Expand(ps) under the label family `fam`; returns (h, lab: id -> label)"""
+    from hypergraphx import Hypergraph
+    rng = random.Random(bseed)
+    N = sum(b["n"] for b in ps)
+    idx = list(range(1, N + 1))
+    if fam != "ident":
+        rng.shuffle(idx)                      # which label of the family a spec node gets
+    lab = {v: _large_label(fam, idx[v - 1]) for v in range(1, N + 1)}
+    edges, bare, off = [], [], 0
+    for b in ps:
+        es = block_edges(b)
+        if not es:
+            bare.append(off + 1)
+        edges += [tuple(off + x for x in e) for e in es]
+        off += b["n"]
+    present = {frozenset(e) for e in edges}
+    rng.shuffle(edges)
+
+    def listed(e):
+        e = [lab[x] for x in e]
+        rng.shuffle(e)
+        return tuple(e)
+
+    if mode == "ctor":
+        h = Hypergraph(edge_list=[listed(e) for e in edges]) if edges else Hypergraph()
+        for v in bare:
+            h.add_node(lab[v])
+    elif mode == "nodes_first":
+        h = Hypergraph()
+        order = list(range(1, N + 1))
+        rng.shuffle(order)
+        h.add_nodes([lab[v] for v in order])
+        h.add_edges([listed(e) for e in edges])
+    else:                                     # one_by_one / detour
+        h = Hypergraph()
+        ops = [("edge", e) for e in edges]
+        for v in bare:
+            ops.insert(rng.randint(0, len(ops)), ("node", v))
+        if mode == "detour":
+            tmp = _large_label(fam, N + 1)    # a node that is added (with two hyperedges) and removed again
+            extra = []
+            for _ in range(3):
+                e = tuple(rng.sample(range(1, N + 1), rng.randint(2, min(6, N))))
+                if frozenset(e) not in present and frozenset(e) not in {frozenset(x) for x in extra}:
+                    extra.append(e)           # bridges / chords that are added and removed again
+            i0, i1 = sorted([rng.randint(0, len(ops)), rng.randint(0, len(ops))])
+            ops[i1:i1] = [("remove", x) for x in extra]
+            ops[i0:i0] = [("edge", x) for x in extra] + [("tmp", None)]
+            ops.append(("remove_tmp", None))
+        for op, x in ops:
+            if op == "edge":
+                h.add_edge(listed(x))
+            elif op == "node":
+                h.add_node(lab[x])
+            elif op == "remove":
+                h.remove_edge(listed(x))
+            elif op == "tmp":
+                h.add_edge((tmp, lab[rng.randint(1, N)]))
+                h.add_edge(tuple([tmp] + [lab[v] for v in rng.sample(range(1, N + 1), min(3, N))]))
+            else:
+                h.remove_node(tmp)            # takes its hyperedges with it
+    return h, lab
+
+
+def observe_large(h, ps, lab, rng):
+    """calls of the real code (methods and module-level functions) -> one case for Trace_C08B"""
+    import hypergraphx.utils.cc as ccm
+    import hypergraphx.measures.degree as dgm
+    from hypergraphx.utils.visits import _bfs, _dfs
+    from harness.binding import quiet
+    un = {l: v for v, l in lab.items()}
+    uid = lambda x: un.get(x, 0) if isinstance(x, (int, str)) and not isinstance(x, bool) else 0
+    raised = []
+
+    def ids(xs):
+        return [uid(x) for x in xs]
+
+    def both(name, conv, default, *a, **kw):
+        out = []
+        for route, fn in (("method", getattr(h, name, None)), ("module", None)):
+            try:
+                with quiet():
+                    v = fn(*a, **kw) if route == "method" else getattr(ccm if hasattr(ccm, name) else dgm, name)(h, *a, **kw)
+                out.append(conv(v))
+            except Exception as ex:               # noqa: the call is a valid one, it must not raise
+                raised.append("%s(%s):%s" % (name, route, type(ex).__name__))
+                out.append(default)
+        return out
+
+    def one(tag, fn, conv, default):
+        try:
+            with quiet():
+                return conv(fn())
+        except Exception as ex:
+            raised.append("%s:%s" % (tag, type(ex).__name__))
+            return default
+
+    as_int = lambda v: v if isinstance(v, int) and not isinstance(v, bool) else -1
+    as_bool = lambda v: v if isinstance(v, bool) else "not-a-bool"
+    pairs = lambda d: [[uid(k), as_int(x)] for k, x in d.items()]
+    dist = lambda d: [[as_int(k), as_int(x)] for k, x in d.items()]
+
+    # filters: none, pairs, and a few of the sizes that matter for these parameters (+ one that no hyperedge has)
+    present = sorted({len(e) for b in ps for e in block_edges(b)})
+    cand = [z for z in present if z != 2] + [1, 3, max(present + [2]) + 1]
+    rng.shuffle(cand)
+    sizes = [2]
+    for z in cand:
+        if z not in sizes and len(sizes) < 4:
+            sizes.append(z)
+    # probe nodes: for up to three blocks one random node; the first member and the last pendant of a bigpend block
+    offs, o = [], 0
+    for b in ps:
+        offs.append(o)
+        o += b["n"]
+    probes = []
+    for bi in rng.sample(range(len(ps)), min(3, len(ps))):
+        b = ps[bi]
+        probes.append((offs[bi] + rng.randint(1, b["n"]), bi + 1))
+        if b["shape"] == "bigpend" and len(probes) < 5:
+            probes.append((offs[bi] + rng.choice([1, b["n"]]), bi + 1))
+    obs = []
+    for z in [None] + sizes:
+        kw = {} if z is None else ({"size": z} if rng.random() < 0.5 else {"order": z - 1})
+        r = {"f": ["none", 0] if z is None else ["eq", z]}
+        r["comps"] = both("connected_components", lambda v: [ids(c) for c in v], [], **kw)
+        r["num"] = both("num_connected_components", as_int, -1, **kw)
+        r["conn"] = both("is_connected", as_bool, "raised", **kw)
+        r["largest"] = both("largest_component", ids, [], **kw)
+        r["largest_size"] = both("largest_component_size", as_int, -1, **kw)
+        r["isolated"] = both("isolated_nodes", ids, [0], **kw)
+        r["degseq"] = both("degree_sequence", pairs, [], **kw)
+        r["degdist"] = both("degree_distribution", dist, [], **kw)
+        pr = []
+        for (v, bi) in probes:
+            n = lab[v]
+            pr.append({"v": v, "block": bi,
+                       "ncc": both("node_connected_component", ids, [], n, **kw),
+                       "iso": both("is_isolated", as_bool, "raised", n, **kw),
+                       "deg": both("degree", as_int, -1, n, **kw),
+                       "bfs": one("_bfs", lambda: _bfs(h, n, **kw), ids, []),
+                       "dfs": one("_dfs", lambda: _dfs(h, n, max_depth=None, **kw), ids, [])})
+        r["probes"] = pr
+        obs.append(r)
+    with quiet():
+        nodes = ids(h.get_nodes())
+        edges = [ids(e) for e in h.get_edges()]
+        szs = [as_int(x) for x in h.get_sizes()]
+    return {"ps": ps, "nodes": nodes, "edges": edges, "sizes": szs, "obs": obs, "raised": sorted(set(raised))}
+
+
+def large_case(i, ps, origin, seed):
+    rng = random.Random(seed * 7919 + i * 31 + 3)
+    fam = LARGE_FAMS[(i + seed) % len(LARGE_FAMS)] if origin == "core" else rng.choice(LARGE_FAMS)
+    mode = rng.choice(["ctor", "nodes_first", "one_by_one", "detour"])
+    bseed = rng.randrange(1 << 30)
+    h, lab = build_large(ps, fam, mode, bseed)
+    case = observe_large(h, ps, lab, rng)
+    return case, {"params": ps, "family": fam, "mode": mode, "build_seed": bseed, "case_index": i, "origin": origin,
+                  "nodes": sum(b["n"] for b in ps)}
+
+
+def _large_worker(args):
+    i, ps, origin, seed = args
+    return large_case(i, ps, origin, seed)
+
+
+def judge_large(res, cases, meta, v):
+    other = 0
+    for idx, failed in v["rejects"]:
+        mine = [c for c in failed if c in LARGE_OWN]
+        if "construction" in failed or not mine:
+            other += 1                        # the object is not the one the parameters describe: C01's business
+            continue
+        m = meta[idx]
+        shapes = sorted({b["shape"] for b in m["params"]})
+        res.reject({"part": "large-structured", "clauses": mine},
+                   "large structured input (%d nodes, blocks %s, labels %s, built %s): %s disagree(s) with the block formulas "
+                   "of Blocks.tla%s" % (m["nodes"], "+".join("%s(%d%s)" % (b["shape"], b["n"], ",p=%d" % b["p"] if b["p"] else "")
+                                                               for b in m["params"][:6]) + ("..." if len(m["params"]) > 6 else ""),
+                                        m["family"], m["mode"], ",".join(mine),
+                                        " [raised: %s]" % ",".join(cases[idx]["raised"]) if cases[idx]["raised"] else ""),
+                   {"part": "large-structured", "shapes": shapes, **m,
+                    "logged": {k: x for k, x in cases[idx].items() if k not in ("nodes", "edges")}})
+    return other
+
+
+def run_large(res, tier, seed):
+    """the large-structured part: MC_Blocks (design) runs while the real objects are built and queried"""
+    import concurrent.futures as cf
+    from harness import cases as K
+    t0 = time.time()
+    plans = large_plans(tier, seed)
+    with cf.ThreadPoolExecutor(max_workers=1) as tex:
+        fut = tex.submit(explore_blocks, tier)
+        jobs = [(i, ps, origin, seed) for i, (ps, origin) in enumerate(plans)]
+        if tier == "quick":
+            done = [_large_worker(j) for j in jobs]
+        else:
+            with cf.ProcessPoolExecutor(max_workers=8) as pex:
+                done = list(pex.map(_large_worker, jobs, chunksize=8))
+        tb = time.time() - t0
+        cases = [c for c, _ in done]
+        meta = [m for _, m in done]
+        t1 = time.time()
+        v = K.run_cases("Trace_C08B", cases, {"Kind": "hg"}, procs=8, per_batch=max(4, len(cases) // 8 + 1))
+        tv = time.time() - t1
+        runs, probes = fut.result()
+    other = judge_large(res, cases, meta, v)
+    print("[C08 large] build+query %.1fs validate %.1fs, MC_Blocks %d states (%d cases, up to %d nodes) total %.1fs" % (
+        tb, tv, sum(r["states"] for r in runs), len(cases), max(m["nodes"] for m in meta), time.time() - t0), file=sys.stderr)
+    res.cov(states=sum(r["states"] for r in runs), transitions=sum(r["transitions"] for r in runs),
+            large_structured_cases=len(cases), largest_node_count=max(m["nodes"] for m in meta),
+            large_cases_over_256_nodes=sum(1 for m in meta if m["nodes"] > 256),
+            large_connected_cases_over_256_nodes=sum(1 for m in meta if m["nodes"] > 256 and len(m["params"]) == 1),
+            large_cases_with_pendants_on_a_hyperedge_of_8_or_more=sum(
+                1 for m in meta if any(b["shape"] == "bigpend" and b["n"] - b["p"] >= 8 for b in m["params"])),
+            large_calls_validated=sum(len(c["obs"]) * (18 + 8 * len(c["obs"][0]["probes"])) for c in cases),
+            large_validator_states=v["states"], large_rejected_cases=len(v["rejects"]),
+            large_rejections_of_other_property=other)
+    res.cov(large_cases_by_family={f: sum(1 for m in meta if m["family"] == f) for f in LARGE_FAMS},
+            large_cases_by_construction={k: sum(1 for m in meta if m["mode"] == k) for k in ("ctor", "nodes_first", "one_by_one", "detour")},
+            large_block_shapes={s_: sum(1 for m in meta for b in m["params"] if b["shape"] == s_)
+                                for s_ in ("single", "path", "star", "bigedge", "bigpend", "triples")},
+            block_probes_violated_as_expected=probes)
+    res.coverage.setdefault("explorations", []).extend(runs)
+    for i_ in BLOCK_INV:
+        if i_ not in res.coverage.setdefault("invariants", []):
+            res.coverage["invariants"].append(i_)
+    big = max(range(len(meta)), key=lambda j: meta[j]["nodes"])
+    res.sample({"part": "large-structured", **{k: meta[big][k] for k in ("params", "family", "mode", "nodes")}}, cap=6)
+    res.assume("inputs of 20-400 nodes are disjoint unions of connected blocks (path, star, one large hyperedge, a large hyperedge "
+               "with pendant pairs, chain of triples, single nodes) and are decided by the block formulas of spec/ext/Blocks.tla; "
+               "MC_Blocks checks those formulas against Derive.tla (Components, CompOf, LargestSize, Isolated, Degree, sizes) "
+               "exhaustively for every sequence of up to 3 blocks of up to %d nodes and every filter - the general definitions "
+               "are not evaluated at the large sizes" % (4 if tier == "quick" else 5),
+               "the object built from the parameters is confirmed by TLC to be Expand(ps) (get_nodes/get_edges read back); "
+               "visits are called with max_depth=None only")
+
+
 def run(tier, seed):
     res = Result("C08", tier, seed, "model_checking")
     explore(res, "hg", tier, module="MC_Derive",
             invariants=["DegreeSum", "DistIsHistogram", "ComponentsPartition", "IsolatedIffSingleton", "LargestIsComponent"],
             configs=[dict(n=3, maxw=1, batches=False, metaops=False)] +
                     ([dict(n=4, maxw=1, batches=False, metaops=False, weighted=False)] if tier == "thorough" else []))
+    run_large(res, tier, seed)
     run_container("C08", "hg", tier, seed, res=res, finish=False, do_explore=False, cc=True,
                   own_clauses=CC_CLAUSES | DEG, foreign=(), extra_behaviours=_extra,
                   scale=0.5 if tier == "quick" else 1.0)
@@ -83,5 +451,21 @@ def run(tier, seed):
 
 
 def replay(path):
+    import json
+    with open(path) as f:
+        rp = json.load(f)
+    p = rp["payload"]
+    if p.get("part") == "large-structured":
+        from harness import cases as K
+        case, _ = large_case(p["case_index"], p["params"], p["origin"], rp["seed"])
+        v = K.run_cases("Trace_C08B", [case], {"Kind": "hg"}, procs=1)
+        wanted = set(rp["signature"].get("clauses", []))
+        for _, failed in v["rejects"]:
+            print("large structured case %d: failing clauses %s" % (p["case_index"], ",".join(failed)))
+            if wanted & set(failed):
+                print("VIOLATION property=C08 replay=%s" % path)
+                return 1
+        print("replay of %s: the recorded violation does not reproduce on the current tree" % path)
+        return 0
     from checks.containers import replay_container
     return replay_container("C08", path)
